@@ -113,6 +113,9 @@ class KeyHooks(Hooks):
                 m = term_len(kwargs.get('msg', args[0] if args else None))
                 ln = m + 16 if m is not None else None
             return ext(name, *allargs, length=ln if isinstance(ln, int) else None)
+        if isinstance(callee, Builtin) and callee.name == 'len' and getattr(self, 'known_lengths', False) and len(args) == 1 \
+                and isinstance(args[0], Sym) and isinstance(args[0].meta.get('length'), int):
+            return args[0].meta['length']
         if isinstance(callee, Builtin) and callee.name == 'int.from_bytes':
             return App('int.from_bytes', args[0], kwargs.get('byteorder', args[1] if len(args) > 1 else 'big'))
         return NotImplemented
